@@ -1,0 +1,15 @@
+//go:build verif
+
+package remote
+
+// This file is add-only verification scaffolding (build tag "verif"). It only
+// exports a wrapper around an unexported method of this package and changes no
+// behaviour of the package.
+
+// VerifInitializeRequestEnsureValid exposes
+// InitializeSynchronizationRequest.ensureValid, the validation an endpoint
+// server applies to the initialization request (including the merged
+// configuration) before it creates the underlying local endpoint.
+func VerifInitializeRequestEnsureValid(r *InitializeSynchronizationRequest) error {
+	return r.ensureValid()
+}
